@@ -17,7 +17,7 @@ func verifDoc(depth int) interface{} {
 		if verifChoice(2) == 0 {
 			return float64(verifNondetIntIn(-3, 3))
 		}
-		return float64(verifNondetIntIn(-3, 3)) + 0.5
+		return []float64{0.5, -1.5, 2.25, 1e19, -9223372036854775808, 1e300}[verifChoice(6)]
 	case 3:
 		switch verifChoice(3) {
 		case 0:
@@ -28,14 +28,14 @@ func verifDoc(depth int) interface{} {
 			return "s"
 		}
 	case 4:
-		n := verifChoice(3)
+		n := verifChoice(1 + depth) // nested containers hold at most one member
 		a := make([]interface{}, n)
 		for i := range a {
 			a[i] = verifDoc(depth - 1)
 		}
 		return a
 	default:
-		n := verifChoice(3)
+		n := verifChoice(1 + depth)
 		m := map[string]interface{}{}
 		keys := []string{"a", "b"}
 		for i := 0; i < n; i++ {
@@ -97,11 +97,11 @@ func verifSameDoc(x, y interface{}) bool {
 	return false
 }
 
-// verif:bound VerifC13TranslatorStrict decoded documents of depth <=2, width <=2 (null, bool, integers and halves in [-3,3.5], strings of length <=1, arrays, objects with keys a,b); strict translator
+// verif:bound VerifC13TranslatorStrict decoded documents of depth <=2, width <=2 at the top and <=1 nested (null, bool, integers and halves in [-3,3.5], strings of length <=1, arrays, objects with keys a,b); strict translator
 // verif:cover VerifC13TranslatorStrict nested empty-container
 func VerifC13TranslatorStrict() {
 	t := StrictTranslator()
-	x := verifDoc(1)
+	x := verifDoc(2)
 	switch v := x.(type) {
 	case []interface{}:
 		if len(v) == 0 {
@@ -131,4 +131,33 @@ func VerifC13TranslatorStrict() {
 		return
 	}
 	verifAssert("decode-encode-decode-idempotent", y.Equal(y2))
+}
+
+// verif:bound VerifC13TranslatorNumber every finite float64 as a JSON number (strict and non-strict translators)
+// verif:cover VerifC13TranslatorNumber whole fractional
+func VerifC13TranslatorNumber() {
+	t := NewTranslator(verifChoice(2) == 1)
+	f := verifNondetFloat64()
+	verifAssume(!verifIsNaN(f))
+	verifAssume(f-f == 0) // finite
+	y, err := t.ToArrai(f)
+	verifAssert("to-arrai-no-error", err == nil)
+	if err != nil {
+		return
+	}
+	z, err := t.FromArrai(y)
+	verifAssert("from-arrai-no-error", err == nil)
+	if err != nil {
+		return
+	}
+	switch v := z.(type) {
+	case int:
+		verifCover("whole")
+		verifAssert("number-same-value", float64(v) == f)
+	case float64:
+		verifCover("fractional")
+		verifAssert("number-same-value", v == f)
+	default:
+		verifAssert("number-stays-number", false)
+	}
 }
